@@ -347,6 +347,12 @@ class Escape:
                 self.sources.append(src)
                 for c in src.excs:
                     items.append((src.node, c, src))
+            # T10: decimal conversion of a value the code has just established to be an int (`type(v) is int` / `isinstance(v, int)` dominating
+            #      `str(v)` / `repr(v)`): ValueError beyond sys.int_max_str_digits - the value is a literal of the analysed source
+            for src in self._int_to_str(f):
+                self.sources.append(src)
+                for c in src.excs:
+                    items.append((src.node, c, src))
             # T2: declared raises of the function itself (abstract / documented contract)
             if f.qn in self.declared:
                 src = Source(f, f.node, list(self.declared[f.qn]), 'declared contract', 'T2')
@@ -577,6 +583,50 @@ class Escape:
                 out.append(Source(f, d, ['IndexError'], f'trailing separator stripped from a list filled by a loop over a parameter that may be empty{where}', 'T9'))
             else:
                 out.append(Source(f, d, ['IndexError'], 'trailing separator stripped from a list filled by a loop over a sequence that may be empty', 'T9'))
+        return out
+
+    def _int_to_str(self, f: Func) -> List['Source']:
+        from .cfg import CFG
+        out: List[Source] = []
+        if isinstance(f.node, ast.Lambda):
+            return out
+        cands = [c for c in f.walk() if isinstance(c, ast.Call) and isinstance(c.func, ast.Name) and c.func.id in ('str', 'repr') and len(c.args) == 1 and
+                 isinstance(c.args[0], ast.Name)]
+        if not cands:
+            return out
+        # locals holding type(v)
+        type_of: Dict[str, str] = {}
+        for n in f.walk():
+            if isinstance(n, ast.Assign) and len(n.targets) == 1 and isinstance(n.targets[0], ast.Name) and isinstance(n.value, ast.Call) and \
+                    isinstance(n.value.func, ast.Name) and n.value.func.id == 'type' and len(n.value.args) == 1 and isinstance(n.value.args[0], ast.Name):
+                type_of[n.targets[0].id] = n.value.args[0].id
+        cfg = None
+        for c in cands:
+            v = c.args[0].id
+            if cfg is None:
+                cfg = CFG(f)
+            try:
+                st = cfg.stmt_of(c)
+            except AttributeError:
+                continue
+            def says_int(t: ast.AST) -> bool:
+                if isinstance(t, ast.Call) and isinstance(t.func, ast.Name) and t.func.id == 'isinstance' and len(t.args) == 2 and \
+                        isinstance(t.args[0], ast.Name) and t.args[0].id == v:
+                    return isinstance(t.args[1], ast.Name) and t.args[1].id == 'int'
+                if isinstance(t, ast.Compare) and len(t.ops) == 1 and isinstance(t.ops[0], (ast.Is, ast.Eq)) and \
+                        isinstance(t.comparators[0], ast.Name) and t.comparators[0].id == 'int':
+                    l = t.left
+                    if isinstance(l, ast.Name) and type_of.get(l.id) == v:
+                        return True
+                    if isinstance(l, ast.Call) and isinstance(l.func, ast.Name) and l.func.id == 'type' and l.args and isinstance(l.args[0], ast.Name) and l.args[0].id == v:
+                        return True
+                return False
+            if not any(pol and says_int(t) for t, pol in cfg.dominating_tests(st)):
+                continue
+            if any(h.type is None or any(isinstance(x, ast.Name) and x.id in ('ValueError', 'Exception') for x in ast.walk(h.type))
+                   for t in enclosing_trys(c, f.node) for h in t.handlers):
+                continue
+            out.append(Source(f, c, ['ValueError'], 'decimal conversion of an int taken from the analysed source (sys.int_max_str_digits)', 'T10'))
         return out
 
     def _dynamic_module_attrs(self, f: Func) -> List['Source']:
@@ -927,10 +977,10 @@ class Escape:
         e = Escape(repo, _CG(repo), {}, {})
         got = {(s.func.name, s.kind) for s in e.sources}
         problems = []
-        for want in (('bad_arith', 'T4'), ('bad_attr', 'T4'), ('bad_format', 'T1'), ('bad_var', 'T4'), ('bad_unpack', 'T5'), ('bad_pop', 'T7'), ('bad_mapget', 'T4'), ('bad_modattr', 'T8'), ('bad_strip', 'T9'), ('stale_strip', 'T9')):
+        for want in (('bad_arith', 'T4'), ('bad_attr', 'T4'), ('bad_format', 'T1'), ('bad_var', 'T4'), ('bad_unpack', 'T5'), ('bad_pop', 'T7'), ('bad_mapget', 'T4'), ('bad_modattr', 'T8'), ('bad_strip', 'T9'), ('stale_strip', 'T9'), ('bad_intstr', 'T10')):
             if want not in got:
                 problems.append(f'fixture source {want} not detected')
-        for ok_name, k in (('good_arith', 'T4'), ('good_var', 'T4'), ('good_unpack', 'T5'), ('good_pop', 'T7'), ('good_mapget', 'T4'), ('good_modattr', 'T8'), ('good_strip', 'T9')):
+        for ok_name, k in (('good_arith', 'T4'), ('good_var', 'T4'), ('good_unpack', 'T5'), ('good_pop', 'T7'), ('good_mapget', 'T4'), ('good_modattr', 'T8'), ('good_strip', 'T9'), ('good_intstr', 'T10')):
             if (ok_name, k) in got:
                 problems.append(f'guarded fixture {ok_name} wrongly flagged')
         return problems
